@@ -366,6 +366,10 @@ void Simulation::readWithArg(const int& argc, char* argv[])
 
   root_element = xmlDocGetRootElement(doc);
 
+  if (!root_element || string((const char*) root_element->name) != "Simulation")
+    throw gError("Simulation::read", "The root element of the input file must be 'Simulation', found '" +
+                 (root_element ? string((const char*) root_element->name) : string("nothing")) + "'.");
+
   NodeManyChildren::read(root_element);
 
   xmlFreeDoc(doc);
@@ -471,6 +475,12 @@ void Simulation::setup()
     srand(RNG_DEFAULT_SEED);
     MSG_DEBUG("Simulation::setup", "NOT randomizing");
   }
+
+  // the children's setup() dereferences the phase and run() the controller: check before, not after
+  if(!m_phase)
+    throw gError("Simulation::setup", "No Phase defined.");
+  if(!m_controller)
+    throw gError("Simulation::setup", "No Controller defined.");
 
   NodeManyChildren::setup();
 
